@@ -35,6 +35,11 @@ CHECKS = {
             'top-level repetition and compared row by row with the original; then five mutations applied cumulatively to the original resp. the copy with the '
             'other side re-read after each.',
             'bounded program length / alphabet; differential oracle copy vs original'),
+    'C06': (MC, '4/C06', 'explicit-state exploration of nested/repeated build programs vs reference model of unrolling',
+            'All programs of N2(2) (166 056: blocks with any body of 1-2 atoms, counts 1..3), N1(3) (explicit relations to blocks), a two-level space (nested counts multiply) '
+            'and top-level / registry-provided counts are unrolled on the real library; multiplicities, reset of counts, untouched outer operations, the full schedule of the '
+            'copies (against the model: each copy follows the latest-ending relation leaf), the n*T clause and idempotence are checked on every one.',
+            'bounded program spaces; model schedule used only where model and implementation agree as built'),
 }
 
 
